@@ -3,7 +3,7 @@
 cd "$(dirname "$0")/.."
 one() {
   declare -A REV=( [F01]=C02 [F02]=C03 [F03]=C07 [F04]=C10 [F05]=C11 [F06]=C12 [F07]=C14 [F08]=C15 [F09]=C08 [F10]=C10,C11 [F12]=C20 [F13]=C09 [F14]=C09 [F15]=C16 [F16]=C16
-                   [F17]=C07 [F18]=C01 [F19]=C03 [F20]=C16 [F21]=C13 [F22]=C16,C04 [F23]=C13 [F24]=C11 [F25]=C18 [F26]=C14 [F27]=C01 )
+                   [F17]=C07 [F18]=C01 [F19]=C03 [F20]=C16 [F21]=C13 [F22]=C16,C04 [F23]=C13 [F24]=C11 [F25]=C18 [F26]=C14 [F27]=C01 [F28]=C08 )
   f=$1; b=$(basename "$f")
   if [[ $b == revert_F* ]]; then key=${b#revert_}; key=${key%%_*}; ids=${REV[$key]}; else ids=$(echo "${b%%_*}" | tr a-z A-Z); fi
   tools/mutate.py "$f" "$ids" 2>&1 | grep -E "^(KILLED|SURVIVED|ERROR|PATCH)"
